@@ -59,6 +59,31 @@ def render(lines, newline_at_end=True, cls=""):
     return text + ("\n" if newline_at_end else "")
 
 
+def raw_fault(orig, ft):
+    """a fault chosen by TLC (on the lines of tokens of a file of a grid exchange format) applied to the ORIGINAL text of the
+    file: these formats are sensitive to the layout of their lines, which a rendering from tokens would lose"""
+    lines = orig.split("\n")
+    spans = []          # (line, start, end) of every token
+    for i, l in enumerate(lines):
+        for m in re.finditer(r"\S+", l):
+            spans.append((i, m.start(), m.end()))
+    kind, k, t = ft["kind"], ft.get("k", 0), ft.get("t", "")
+    if kind in ("trunc", "corrupt", "emptyline"):
+        i, a, b = spans[k - 1]
+        if kind == "trunc":
+            return "\n".join(lines[:i] + [lines[i][:b]])
+        rep = t if kind == "corrupt" else "\n\n"
+        lines[i] = lines[i][:a] + rep + lines[i][b:]
+        return "\n".join(lines)
+    if kind == "wrongclass":
+        lines[0] = t
+    elif kind == "dupline":
+        lines.insert(k, lines[k - 1])
+    elif kind == "dropline":
+        del lines[k - 1]
+    return "\n".join(lines)
+
+
 CSV_FORMAT = {"header": True, "skip": 0, "sep": ",", "dec": ".", "na": "NA", "rank": False}
 
 
@@ -70,7 +95,7 @@ def file_record(e, fid, bases, text=None):
     if c == "Raw":
         rec["c"] = b["fmt"]
         rec["pc"] = "DbGrid"
-        rec["text"] = text if text is not None else render(e["lines"], e["kind"] != "trunc", "Raw")
+        rec["text"] = text if text is not None else raw_fault(b["orig"], e)
     elif c == "CSV":
         rec["pc"] = "Db"
         rec["csv"] = CSV_FORMAT
@@ -371,6 +396,7 @@ def _run(ck, tier):
     for k, b in bases.items():
         if b["c"] == "Raw":
             b["fmt"] = raw_fmt[k]
+            b["orig"] = xfiles[raw_fmt[k]].decode("latin1")
     files = []
     fid = 0
     for e in faults:
@@ -380,12 +406,20 @@ def _run(ck, tier):
     import base64
     if tier == "thorough":
         # every byte prefix of every valid file (rendered from the model; as written by the library for the exchange formats)
+        trunc_pred = {(e["base"], e["k"]): e for e in faults if e["kind"] == "trunc"}
         for b in sorted(bases.values(), key=lambda b: b["base"]):
-            text = render(b["lines"], True, b["c"])
+            text = b["orig"] if b["c"] == "Raw" else render(b["lines"], True, b["c"])
+            ends = [m.end() for m in re.finditer(r"\S+", text)]
             for k in range(0, len(text)):
                 fid += 1
                 nbytes += 1
-                files.append(file_record({"base": b["base"], "c": b["c"], "kind": "truncbyte", "k": k, "t": "", "verdict": "?", "unsafe": [], "rev": []},
+                # classification of a cut inside / after token n+1: that of the token truncations n and n+1 (the partial
+                # token is read as nothing or as another value of the same field)
+                n = sum(1 for x in ends if x <= k)
+                near = [trunc_pred[(b["base"], j)] for j in (n, n + 1) if (b["base"], j) in trunc_pred]
+                files.append(file_record({"base": b["base"], "c": b["c"], "kind": "truncbyte", "k": k, "t": "",
+                                          "verdict": "MaySucceed" if any(x["verdict"] == "MaySucceed" for x in near) else "MustFail",
+                                          "unsafe": sorted({u for x in near for u in x["unsafe"]}), "rev": sorted({u for x in near for u in x["rev"]})},
                                          fid, bases, text=text[:k]))
         # binary format (BMP): every byte prefix, every byte of the first 64 set to 0x00 / 0xFF
         if "Bmp" in xfiles:
@@ -405,7 +439,7 @@ def _run(ck, tier):
     for b in sorted(bases.values(), key=lambda b: b["base"]):
         fid += 1
         v = file_record({"base": b["base"], "c": b["c"], "kind": "valid", "k": 0, "t": "", "verdict": "MaySucceed", "unsafe": [], "rev": []},
-                        fid, bases, text=render(b["lines"], True, b["c"]))
+                        fid, bases, text=b["orig"] if b["c"] == "Raw" else render(b["lines"], True, b["c"]))
         v["realok"] = b.get("realok", True) and not (b["c"] == "Raw" and b["fmt"] == "F2G")
         valid.append(v)
     t0 = time.time()
